@@ -175,10 +175,10 @@ def reference(stream, with_err):
     return dict(handler=tag, text=text, reply='ACK-%s[%s]' % (tag, ctl_id(text)), strict=True)
 
 
-def observe(chunks, after, with_err, send_cap=FakeSocket.SEND_CAP):
+def observe(chunks, after, with_err, send_cap=FakeSocket.SEND_CAP, srv=None):
     """Run the real handler over a scripted connection; return the public observations."""
     del LOG[:]
-    srv = server(with_err)
+    srv = srv or server(with_err)
     del srv.errors[:]
     fs = FakeSocket(chunks, after=after)
     fs.SEND_CAP = send_cap
@@ -452,7 +452,13 @@ def conformance_unit(cases, res):
         chunks = cut(stream, cuts) if b else []
         # the loopback takes a short reply in one write: the comparison is made with a scripted socket that does the same (the
         # short-write answer of the model is an environment answer the loopback cannot produce)
-        fake = observe(chunks, after, with_err, send_cap=None)
+        # both sides start from a server that has served nothing (tcp_case builds its own), so that they stay comparable
+        # when a request leaves something behind on the server object
+        fsrv = fresh_server(with_err)
+        try:
+            fake = observe(chunks, after, with_err, send_cap=None, srv=fsrv)
+        finally:
+            fsrv.server_close()
         real = tcp_case(name, b, cuts, after, with_err)
         res.evaluations += 2
         res.transitions += 2
